@@ -211,7 +211,7 @@ def script_program(stratum, rnd):
         lines += g.while_block(acc, pool, ind, 0)
     elif stratum == "calls_function":
         hb, hp = ScriptGen(rnd).straight(["u", "w"], rnd.randint(1, 3), "    ")
-        helper_src = ("local = Opset('vf.local', 1)\n\n@script(local)\ndef helper_fn(u, w):\n" + "\n".join(hb) +
+        helper_src = ("local = Opset('vf.local', 1)\n\n@script(local, default_opset=op)\ndef helper_fn(u, w):\n" + "\n".join(hb) +
                       f"\n    return {hp[-1]} + u\n\n")
         lines.append(f"    acc = helper_fn(acc, {rnd.choice(pool)})")
         lines.append(g.update(acc, pool, ind))
@@ -239,7 +239,7 @@ F, I64, B = TensorProto.FLOAT, TensorProto.INT64, TensorProto.BOOL
 V3, S0 = (3,), ()
 
 DAG_STRATA = [
-    "plain", "init_small", "init_large_float", "init_large_int8", "init_large_int64", "if", "if_nested", "loop_for", "loop_for_const_n",
+    "plain", "init_small", "init_large_float", "init_large_int8", "init_large_int64", "init_large_float_if", "init_large_and_small", "if", "if_nested", "loop_for", "loop_for_const_n",
     "loop_while", "loop_while_iter", "loop_for_cond", "loop_in_if", "if_in_loop", "loop_in_loop", "while_in_if", "if_in_while",
     "if_dead_inner", "if_with_initializer", "optional_inputs", "attrs",
     "const_nan_inf", "const_neg_zero_d", "const_1d_small", "const_large", "const_int8_double_bool", "const_string",
@@ -556,8 +556,14 @@ def dag_model(stratum, rnd, plain_names=False, plain_consts=False):
         t = gb.add("Add", [t, b], [(F, V3)])[0]
         g4 = gb.add("Gather", [t, i4], [(F, (4,))], axis=0)[0]
         gb.add("Add", [t, gb.add("ReduceSum", [g4], [(F, S0)], keepdims=0)[0]], [(F, V3)])
-    elif s in ("init_large_float", "init_large_int8", "init_large_int64"):
-        if s == "init_large_float":
+    elif s in ("init_large_float", "init_large_int8", "init_large_int64", "init_large_float_if", "init_large_and_small"):
+        if s == "init_large_float_if":
+            r1 = gb.if_node(0)
+            gb.add("Add", [r1[0], gb.fvec()], [(F, V3)])
+        if s == "init_large_and_small":
+            ws = gb.const(np.array([0.5, -1.0, 2.0], dtype=np.float32), as_init=True)
+            gb.add("Mul", [gb.fvec(), ws], [(F, V3)])
+        if s in ("init_large_float", "init_large_float_if", "init_large_and_small"):
             w = gb.const((np.arange(6, dtype=np.float32) * 0.5 - 1.0).reshape(2, 3), as_init=True)
             m = gb.add("Mul", [w, gb.fvec()], [(F, (2, 3))])[0]
             w2 = gb.const(np.arange(5, dtype=np.float32) - 2.0, as_init=True)
@@ -586,7 +592,7 @@ def dag_model(stratum, rnd, plain_names=False, plain_consts=False):
     elif s == "loop_for_const_n":
         gb.loop_node(0, "for", trip=gb.const(np.array(rnd.choice([0, 2, 3]), dtype=np.int64)), ncarried=1)
     elif s == "loop_while":
-        gb.loop_node(0, "while")
+        gb.loop_node(0, "while", ncarried=rnd.choice([1, 2]))
     elif s == "loop_while_iter":
         gb.loop_node(0, "while_iter")
     elif s == "while_in_if":
